@@ -36,7 +36,104 @@ pub fn plan(tier: &str, stage: usize) -> Plan {
   Plan { alpha, k, total }
 }
 
+// ---- stage 2: long-running programs that fill the translation area several times over
+
+pub const PRESSURE_STEPS: u64 = 600;
+const SLED_AT: usize = 0x0100; // offset in each switchable bank
+const SLED_LEN: usize = 0x3000;
+const PRESSURE_ORDERS: [&[u8]; 6] = [&[2, 1], &[3, 1], &[1, 2, 1], &[2, 3, 1], &[3, 2, 1], &[2, 1, 3, 1]];
+/// entry points called per mapped bank.  The translation area is emptied every five to six
+/// sled translations; a contiguous range longer than that period puts the bank switch at every
+/// distance after an emptying (what an emptying leaves behind lives until the next one)
+const PRESSURE_ENTRIES: [usize; 8] = [5, 6, 7, 8, 9, 10, 11, 12];
+
+/// the base image with, in every switchable bank, a 12 KiB sled of `INC (HL)` (a large
+/// template: each entry point translates to most of a megabyte of host code) that ends by
+/// logging the bank's number at (DE++) and returning
+pub fn pressure_image() -> Vec<u8> {
+  let mut img = gen::base_image();
+  for b in 1..4usize {
+    let base = b * 0x4000 + SLED_AT;
+    for i in 0..SLED_LEN {
+      img[base + i] = 0x34;
+    }
+    let tail = [0x3E, (b as u8) * 0x11, 0x12, 0x13, 0xC9]; // LD A,b*11; LD (DE),A; INC DE; RET
+    img[base + SLED_LEN..base + SLED_LEN + tail.len()].copy_from_slice(&tail);
+  }
+  let h = world::header_bytes(0x03, 0x01, 0x02);
+  img[0x104..0x150].copy_from_slice(&h[0x104..0x150]);
+  img
+}
+
+pub fn pressure_count(tier: &str) -> u64 {
+  let _ = tier;
+  (PRESSURE_ORDERS.len() * PRESSURE_ENTRIES.len()) as u64
+}
+
+/// program i: for every bank of the order, map it and call successive entry points of the sled
+/// from a loop (entry pointer in BC, `CALL tramp` with tramp = `PUSH BC; RET`), so that after a
+/// loop's second iteration the sled entries are the only blocks still being translated and it
+/// is a switchable-bank translation that finds the translation area full
+pub fn pressure_program(i: u64) -> (String, Vec<u8>) {
+  let order = PRESSURE_ORDERS[(i as usize) / PRESSURE_ENTRIES.len()];
+  let entries = PRESSURE_ENTRIES[(i as usize) % PRESSURE_ENTRIES.len()];
+  let mut p: Vec<u8> = gen::PROLOGUE.to_vec();
+  p.extend_from_slice(&[0x11, 0x00, 0xC4]); // LD DE,C400 (the log)
+  let tramp = gen::PROG_ORG + p.len() + order.len() * 17 + gen::EPILOGUE.len();
+  for (j, b) in order.iter().enumerate() {
+    // every other bank walks the entry points downwards, so that the addresses translated
+    // last under one bank are the first to be looked up under the next
+    let down = j % 2 == 1;
+    let first = 0x4000 + SLED_AT + if down { entries - 1 } else { 0 };
+    let stop = if down { 0x4000 + SLED_AT - 1 } else { 0x4000 + SLED_AT + entries };
+    p.extend_from_slice(&[0x3E, *b, 0xEA, 0x00, 0x21]); // LD A,b; LD (2100),A
+    p.extend_from_slice(&[0x01, (first & 0xff) as u8, (first >> 8) as u8]); // LD BC,first
+    p.extend_from_slice(&[0xCD, (tramp & 0xff) as u8, (tramp >> 8) as u8]); // L: CALL tramp
+    p.push(if down { 0x0B } else { 0x03 }); // DEC BC / INC BC
+    p.extend_from_slice(&[0x79, 0xFE, (stop & 0xff) as u8]); // LD A,C; CP stop
+    p.extend_from_slice(&[0x20, 0xF7]); // JR NZ,L
+  }
+  p.extend_from_slice(&gen::EPILOGUE);
+  assert_eq!(gen::PROG_ORG + p.len(), tramp);
+  p.extend_from_slice(&[0xC5, 0xC9]); // tramp: PUSH BC; RET
+  assert!(p.len() < gen::SUBS - gen::PROG_ORG);
+  let name = format!("pressure(banks={},entries-per-bank={})", order.iter().map(|b| b.to_string()).collect::<Vec<_>>().join(">"), entries);
+  (name, p)
+}
+
+pub fn run_pressure(image: &str, tier: &str, workers: usize) -> PoolResult {
+  let total = pressure_count(tier);
+  let opts = PoolOpts { workers, chunk: 1, bitmap_bits: 1 << 12, result_words: total as usize, samples_per_child: 1, ..PoolOpts::default() };
+  let img = image.to_string();
+  run_pool(
+    total,
+    &opts,
+    |_| (),
+    |_, case, ctx| {
+      let (name, prog) = pressure_program(case);
+      let mut core = progrun::fresh_core(&img).expect("image loads");
+      progrun::patch_program(&mut core, gen::PROG_ORG, &prog);
+      let d = progrun::run_digest(&mut core, PRESSURE_STEPS, false);
+      ctx.result(case, d);
+      ctx.count(0, PRESSURE_STEPS);
+      // outcome class: the log of bank numbers written by the sled tails
+      let mut h = world::Fx::new();
+      h.bytes(&core.memory.work_ram[0x400..0x440]);
+      ctx.class(h.get());
+      ctx.sample(|| J::obj().set("program", J::s(name.as_str())).set("steps", J::u(PRESSURE_STEPS)).set("log_at_C400", J::s(world::hex(&core.memory.work_ram[0x400..0x430]))));
+    },
+    |case, how| {
+      let (name, _) = pressure_program(case);
+      (format!("C04 build={} prog={} crash={}", progrun::this_build(), name, how), J::obj().set("case", J::obj().set("program", J::s(name.as_str())).set("build", J::s(progrun::this_build()))))
+    },
+  )
+}
+
 pub fn run_stage(image: &str, tier: &str, stage: usize, workers: usize) -> (Plan, PoolResult) {
+  if stage == 2 {
+    let r = run_pressure(image, tier, workers);
+    return (Plan { alpha: Vec::new(), k: 0, total: pressure_count(tier) }, r);
+  }
   let pl = plan(tier, stage);
   let opts = PoolOpts { workers, chunk: 4, bitmap_bits: 1 << 16, result_words: pl.total as usize, samples_per_child: 1, ..PoolOpts::default() };
   let img = image.to_string();
@@ -93,10 +190,14 @@ pub fn worker(args: &[String]) -> i32 {
   }
   if args.len() >= 6 && args[0] == "detail" {
     let stage: usize = args[2].parse().unwrap_or(0);
-    let pl = plan(&args[1], stage);
     let index: u64 = args[4].parse().unwrap_or(0);
-    let seq = gen::nth_sequence(pl.alpha.len(), pl.k, index).unwrap();
-    let prog = gen::assemble(&pl.alpha, &seq);
+    let prog = if stage == 2 {
+      pressure_program(index).1
+    } else {
+      let pl = plan(&args[1], stage);
+      let seq = gen::nth_sequence(pl.alpha.len(), pl.k, index).unwrap();
+      gen::assemble(&pl.alpha, &seq)
+    };
     let mut core = match progrun::fresh_core(&args[3]) {
       Ok(c) => c,
       Err(e) => {
@@ -110,7 +211,7 @@ pub fn worker(args: &[String]) -> i32 {
       let devnull = libc::open(b"/dev/null\0".as_ptr() as *const libc::c_char, libc::O_WRONLY);
       libc::dup2(devnull, 1);
     }
-    let d = progrun::run_detail(&mut core, STEPS, false);
+    let d = progrun::run_detail(&mut core, if stage == 2 { PRESSURE_STEPS } else { STEPS }, false);
     if std::fs::write(&args[5], d.to_string()).is_err() {
       return 2;
     }
@@ -135,12 +236,14 @@ pub fn run(tier: &str) -> i32 {
   let mut rep = Report::new("C04", tier, "translation_validation");
   rep.assume("programs are sequences of fragments from the fixed alphabet of DESIGN.md Appendix C, executed for a fixed budget of steps from the post-boot state");
   rep.assume("all RAM and both frame buffers are folded into the digest every 64 steps and at the end; registers and device registers after every step");
-  let image = world::write_rom_file(&gen::base_image());
+  let base_image = world::write_rom_file(&gen::base_image());
+  let pressure_image_path = world::write_rom_file(&pressure_image());
   let tmp = crate::util::pool::tmp_dir();
   let mut programs = 0u64;
   let mut disagreements = 0u64;
   let mut steps_total = 0u64;
-  for stage in 0..2usize {
+  for stage in 0..3usize {
+    let image = if stage == 2 { pressure_image_path.clone() } else { base_image.clone() };
     let prefix = format!("{}/c04_jit_{}", tmp, stage);
     // the jit build runs as a separate process (a different compilation of emulator.rs)
     let jit_bin = match std::env::var("GBMC_JIT_BIN") {
@@ -161,7 +264,7 @@ pub fn run(tier: &str) -> i32 {
         return rep.finish();
       },
     };
-    let (pl, r) = run_stage(&image, tier, stage, 10);
+    let (pl, r) = run_stage(&image, tier, stage, if stage == 2 { 6 } else { 10 });
     let out = child.wait_with_output();
     match out {
       Ok(o) if o.status.success() => {},
@@ -194,11 +297,19 @@ pub fn run(tier: &str) -> i32 {
     }
     let nojit_res = r.results.clone();
     let total = pl.total;
-    let counters = rep.add_stage(
-      if stage == 0 { "programs-stage0" } else { "programs-stage1" },
-      &format!("all sequences of length <= {} over {} fragments ({} programs) x {} steps, jit build vs non-jit build", pl.k, pl.alpha.len(), total, STEPS),
-      r,
-    );
+    let counters = if stage == 2 {
+      rep.add_stage(
+        "pressure-programs",
+        &format!("{} long-running programs: bank orders {{2>1, 3>1, 1>2>1, 2>3>1, 3>2>1, 2>1>3>1}} x {:?} successive entry points into a 12 KiB INC (HL) sled per mapped bank (about 1.2 MiB of host code per entry: the 8 MiB translation area is emptied every five to six entries, several times per program) x {} steps, jit build vs non-jit build", total, PRESSURE_ENTRIES, PRESSURE_STEPS),
+        r,
+      )
+    } else {
+      rep.add_stage(
+        if stage == 0 { "programs-stage0" } else { "programs-stage1" },
+        &format!("all sequences of length <= {} over {} fragments ({} programs) x {} steps, jit build vs non-jit build", pl.k, pl.alpha.len(), total, STEPS),
+        r,
+      )
+    };
     steps_total += counters[0];
     programs += total;
     if jit_res.len() != nojit_res.len() {
@@ -213,8 +324,8 @@ pub fn run(tier: &str) -> i32 {
         continue;
       }
       disagreements += 1;
-      let seq = gen::nth_sequence(pl.alpha.len(), pl.k, i).unwrap();
-      if reported.iter().any(|r| contains(&seq, r)) || reported.len() >= 12 {
+      let seq = if stage == 2 { vec![i as usize] } else { gen::nth_sequence(pl.alpha.len(), pl.k, i).unwrap() };
+      if (stage != 2 && reported.iter().any(|r| contains(&seq, r))) || reported.len() >= 12 {
         continue;
       }
       // detail in both builds
@@ -225,7 +336,7 @@ pub fn run(tier: &str) -> i32 {
       a2[7] = dn.clone();
       let r1 = progrun::spawn_worker("GBMC_JIT_BIN", &a1);
       let r2 = progrun::spawn_worker("GBMC_NOJIT_BIN", &a2);
-      let name = gen::seq_name(&pl.alpha, &seq);
+      let name = if stage == 2 { pressure_program(i).0 } else { gen::seq_name(&pl.alpha, &seq) };
       let (field, detail) = match (r1, r2) {
         (Ok(_), Ok(_)) => match (progrun::parse_json_file(&dj), progrun::parse_json_file(&dn)) {
           (Ok(a), Ok(b)) => match progrun::first_diff(&b, &a) {
@@ -239,15 +350,16 @@ pub fn run(tier: &str) -> i32 {
         },
         (e1, e2) => ("detail-crashed".to_string(), J::obj().set("jit", J::s(format!("{:?}", e1.err()))).set("nojit", J::s(format!("{:?}", e2.err())))),
       };
-      let prog = gen::assemble(&pl.alpha, &seq);
+      let prog = if stage == 2 { pressure_program(i).1 } else { gen::assemble(&pl.alpha, &seq) };
       rep.add_violation(
         &format!("C04 prog={} first-diff={}", name, field),
-        J::obj().set("case", J::obj().set("program", J::s(name.as_str())).set("bytes_at_0150", J::s(world::hex(&prog))).set("steps", J::u(STEPS))).set("observed", detail),
+        J::obj().set("case", J::obj().set("program", J::s(name.as_str())).set("bytes_at_0150", J::s(world::hex(&prog))).set("steps", J::u(if stage == 2 { PRESSURE_STEPS } else { STEPS }))).set("observed", detail),
       );
       reported.push(seq);
     }
   }
-  let _ = std::fs::remove_file(&image);
+  let _ = std::fs::remove_file(&base_image);
+  let _ = std::fs::remove_file(&pressure_image_path);
   rep.evaluations = programs;
   rep.cov("programs", J::u(programs));
   rep.cov("disagreements_checked", J::u(disagreements));
